@@ -26,6 +26,11 @@ def scenarios():
         out.append(dict(base, name=tag + "/cold/batch-vs-leaf", warm=[], threads=[[["th", 1]], [["tf", 2]]]))
         out.append(dict(base, name=tag + "/cold/exception-same", warm=[], threads=[[["tf", 13]], [["tf", 13]]]))
         out.append(dict(base, name=tag + "/cold/same-call-two-spellings", warm=[], threads=[[["tf", 1]], [["tf", 1, "partial"]]]))
+        if budget:
+            # a result larger than the whole cache (tf(5): 340 bytes > 300): what the cache keeps for it while it is being stored
+            out.append(dict(base, name=tag + "/cold/oversize-same", warm=[], threads=[[["tf", 5]], [["tf", 5]]]))
+            out.append(dict(base, name=tag + "/warmstore-coldcache/oversize-same", warm=[["tf", 5]], cold_cache=True,
+                            threads=[[["tf", 5]], [["tf", 5]]]))
     return out
 
 
